@@ -536,6 +536,11 @@ pub async fn client_query(sh: Arc<Shared>, q: Value) {
         if got == 0 {
             sh.emit(json!({"ev":"cnone","q":qid,"waited_ms":wait.as_millis() as u64}));
         }
+        // a client that keeps its connection open after the answer (connection reuse): others must not have to wait for it
+        if let Some(h) = q["hold_ms"].as_u64() {
+            tokio::time::sleep(std::time::Duration::from_millis(h)).await;
+        }
+        drop(s);
     }
 }
 
